@@ -18,6 +18,7 @@ class Cycles:
         self.offset = {d: 0 for d in self.devs}
         self.oper = {d: True for d in self.devs}
         self.n_recv = self.n_script = self.n_shut = self.n_fin = 0
+        self.n_cb_off = 0
         self.src_prev_out = {s: None for s in self.sources}
         self.src_last_departure = {s: 0 for s in self.sources}     # initialisation instant
         self.sink_last = {}
@@ -100,6 +101,14 @@ class Cycles:
             if not self.oper.get(did, True):
                 ctx.report('accept_while_down', f'{did} accepted {part.name} at {t!r} while not operational')
                 return
+        # one-shot offsets a processor requested from its own finish callback: they come after the acceptance of
+        # the part that finished (possibly in the same event, when the cycle time is 0) and before the next one
+        while self.n_cb_off < len(log.cb_offsets):
+            t, did, off, ser = log.cb_offsets[self.n_cb_off]
+            self.n_cb_off += 1
+            if did in self.offset:
+                self.offset[did] += off
+                ctx.count('offsets_requested_from_finish_callbacks')
         # 4. cycle ends
         for d in self.devs:
             c = self.cur[d]
